@@ -61,7 +61,9 @@ def build() -> Check:
         if oc == "<before-handler>":
             continue
         base = oc.rstrip("*")
-        faultless = [t for t in trs if not any(e.kind == "CKPT" and e.data.get("outcome") != "ok" for e in t.events)]
+        # paths on which the checkpoint pipeline failed (a failed checkpoint, or a stored failure found by the wrapper's own check) are C06's
+        faultless = [t for t in trs if not any((e.kind == "CKPT" and e.data.get("outcome") != "ok") or (e.kind == "FAILCHECK" and e.data.get("outcome") != "ok")
+                                               for e in t.events)]
         outs = set()
         for t in faultless:
             st = status_of(t)
